@@ -3323,7 +3323,10 @@ func (bc *Blockchain) GetTestHistoricVM(t trigger.Type, tx *transaction.Transact
 		if mtb := bc.GetMaxTraceableBlocks(); bc.BlockHeight() > mtb && b.Index < bc.BlockHeight()-mtb {
 			return nil, fmt.Errorf("state for height %d is outdated and removed from the storage", b.Index)
 		}
-		mode |= mpt.ModeGCFlag
+		// Nodes are stored with reference counters; the ones deactivated by
+		// later blocks still belong to the requested state, so the GC flag
+		// (which hides inactive nodes) must not be set for reading it.
+		mode |= mpt.ModeLatest
 	}
 	if b.Index < 1 || b.Index > bc.BlockHeight()+1 {
 		return nil, fmt.Errorf("unsupported historic chain's height: requested state for %d, chain height %d", b.Index, bc.blockHeight)
